@@ -22,7 +22,7 @@ use tokio::sync::{mpsc, watch};
 use super::super::{DaemonChannels, SourceState, SystemTask};
 use crate::daemon::config::TimestampMode;
 use crate::daemon::ntp_source::MsgForSystem;
-use crate::daemon::spawn::{SpawnEvent, Spawner, SpawnerId};
+use crate::daemon::spawn::{SpawnEvent, Spawner, SpawnerId, SystemEvent};
 
 /// A clock that is never the kernel clock: constant reading, every adjustment is a recorded no-op.
 #[derive(Debug, Clone, Default)]
@@ -190,6 +190,11 @@ impl Sys {
     /// Ids of the registered spawners in registration order.
     pub(crate) fn spawner_ids(&self) -> Vec<u64> {
         self.task.spawners.iter().map(|s| spawner_num(s.id)).collect()
+    }
+
+    /// A clone of the sender the system task uses to notify spawner number `i` (registration order).
+    pub(crate) fn notify_tx(&self, i: usize) -> mpsc::Sender<SystemEvent> {
+        self.task.spawners[i].notify_tx.clone()
     }
 
     pub(crate) fn taps(&self) -> Taps {
